@@ -334,12 +334,14 @@ def compare(ctx, part, lines, outs_c, outs_m, inc_c, replay_of, search=None, len
         if found:
             ctx.violation("tool:%s:%s" % (part, found[0]), "tie %s broke (impl=%r model=%r) and the tool violates the property on that input: %s"
                           % (part, (outs_c[i] or "")[:120], m[:120], found[1]), replay_of(i))
-        else:
-            r = replay_of(i)
-            r.update(impl=outs_c[i], model=outs_m[i], correspondence="props/C07 %s: extracted model = C harness (verdict+payload)" % part,
-                     other_mismatches=len(mism))
-            ctx.violation("tie:%s" % part, "correspondence %s broken on %d of %d cases, first: impl=%r model=%r; no property failure found at tool level"
-                          % (part, len(mism), len(lines), (outs_c[i] or "")[:160], m[:160]), r, no_input=True)
+        # the broken correspondence is always recorded: core.finish drops it in favour of a concrete NEW violation,
+        # but a tool-level failure that is merely a known finding must not hide that model and code disagree
+        r = replay_of(i)
+        r.update(impl=outs_c[i], model=outs_m[i], correspondence="props/C07 %s: extracted model = C harness (verdict+payload)" % part,
+                 other_mismatches=len(mism))
+        ctx.violation("tie:%s" % part, "correspondence %s broken on %d of %d cases, first: impl=%r model=%r; %s"
+                      % (part, len(mism), len(lines), (outs_c[i] or "")[:160], m[:160],
+                         "tool level on that input: " + found[0] if found else "no property failure found at tool level"), r, no_input=True)
     return agree
 
 
@@ -520,6 +522,107 @@ def part_decoders(ctx, info, drv, stats):
     return total, nontriv, samples[:2]
 
 
+def text_cases(rnd, tier):
+    """cases for the text harness: split_line, one sort file line, one xattr value, a whole xattr map file"""
+    q = tier == "quick"
+    hx = lambda b: b.hex() or "-"
+    split = []
+    seps = [b" \t", b",", b"", b"\"", b" ,"]
+    lines = list(gen.PACK_LINES) + [l for l in gen.PACK_BASE.split(b"\n")] + [
+        b"", b" ", b"a", b"a ", b" a", b"\"", b"\"\"", b"\"a", b"a\"", b"\"a\"b", b"\"a\"\"b\"", b"\"\\", b"\"\\\"", b"\"\\\"\"",
+        b"\"\\\\\"", b"\"\\x\"", b"a\\b", b"a,b,,c", b",,,", b"a,\"b,c\",d", b"  a   b  ", b"\t\ta\tb", b"a\0b c", b"\"a\0b\" c",
+        b"glob,dont_fragment", b" glob , nosparse ", b"\"glob\"", b"\"a b\" \"c\\\"d\" e"]
+    alpha = b"\"\\ ,\tab\0"
+    for l in lines:
+        if len(l) > 4000:
+            continue
+        for sp in seps[:2] if len(l) > 40 else seps:
+            split.append("%s %s" % (hx(sp), hx(l)))
+    for _ in range(2500 if q else 120000):
+        l = bytes(rnd.choice(alpha[:-1] if rnd.random() < 0.85 else alpha) for _ in range(rnd.randrange(0, 12)))
+        split.append("%s %s" % (hx(rnd.choice(seps)), hx(l)))
+    maxl = 3000 if q else 20000
+    sort = [hx(l) for l in gen.SORT_LINES if len(l) < maxl] + [hx(l) for l in gen.SORT_BASE.split(b"\n")]
+    # structured: priority, optional flag list, (quoted) name -- mostly valid, every part occasionally hostile
+    prios = [b"0", b"5", b"-5", b"-0", b"007", b"9223372036854775806", b"-9223372036854775806", b"9223372036854775807", b"+1", b"", b"5x"]
+    fl = [b"glob", b"glob_no_path", b"dont_fragment", b"dont_compress", b"dont_deduplicate", b"nosparse", b" glob", b"glob ", b"\tnosparse\t",
+          b"\"glob\"", b"\"gl\\\\ob\"", b"bogus", b"", b"Glob", b"glob\0x", b"\"nosparse", b"dont_compress\""]
+    names = [b"file", b"sub/dir/f", b"./a//b/", b"/abs", b"..", b"a/../b", b"\"name with space\"", b"\"q\\\"uote\"", b"\"back\\\\slash\"", b"\"bad\\escape\"",
+             b"\"unterminated", b"\"trailing\"x", b"\"\"", b"*.txt", b"a b", b"\"a/./b//\"", b"\"..\"", b"[x]", b"\xff\xfe"]
+    for _ in range(1200 if q else 50000):
+        l = rnd.choice(prios if rnd.random() < 0.2 else prios[:4]) + rnd.choice([b" ", b" ", b"  ", b"\t", b""])
+        if rnd.random() < 0.6:
+            k = rnd.choice([1, 1, 2, 3])
+            l += b"[" + b",".join(rnd.choice(fl if rnd.random() < 0.3 else fl[:9]) for _ in range(k)) + rnd.choice([b"]", b"]", b"]", b"", b"]]"])
+            l += rnd.choice([b" ", b" ", b"\t ", b""])
+        l += rnd.choice(names)
+        sort.append(hx(l))
+    for m in gen.text_mutants(rnd, gen.SORT_BASE, [l for l in gen.SORT_LINES if len(l) < 200], 300 if q else 20000):
+        for l in m.split(b"\n"):
+            if len(l) < maxl:
+                sort.append(hx(l))
+    salpha = [b"5", b" ", b"[", b"]", b",", b"glob", b"nosparse", b"dont_compress", b"\"", b"\\", b"f", b"/", b"..", b"-", b"\t", b"x"]
+    for _ in range(1500 if q else 60000):
+        sort.append(hx(b"".join(rnd.choice(salpha) for _ in range(rnd.randrange(1, 9)))))
+    sort = sorted(set(sort))
+    xdec = []
+    for l in gen.XATTR_LINES + gen.XATTR_BASE.split(b"\n"):
+        if b"=" in l and len(l) < 30000:
+            xdec.append(hx(l.split(b"=", 1)[1]))
+    xalpha = [b"0", b"x", b"X", b"s", b"S", b"\"", b"\\", b"1", b"7", b"8", b"a", b"Q", b"=", b"g", b" "]
+    for _ in range(2000 if q else 80000):
+        xdec.append(hx(b"".join(rnd.choice(xalpha) for _ in range(rnd.randrange(0, 9)))))
+    xdec = sorted(set(xdec))
+    xfile = [hx(m) for m in gen.text_mutants(rnd, gen.XATTR_BASE, [l for l in gen.XATTR_LINES if len(l) < 2000], 250 if q else 10000)]
+    xfile = sorted(set(xfile))
+    return dict(split=split, sort=sort, xdec=xdec, xfile=xfile)
+
+
+def part_text(ctx, info, drv, tools, stats):
+    h = B.compile_harness(info, [os.path.join(HERE, "h_text.c")], "c07_h_text",
+                          extra=["-I" + os.path.join(B.REPO, "bin", "gensquashfs", "src")])
+    rnd = random.Random(ctx.seed * 7919 + 4)
+    sets = text_cases(rnd, ctx.tier)
+    total = nontriv = 0
+    samples = []
+    for mode, lines in sets.items():
+        outs_m, _ = run_parallel([drv, mode], lines, chunks=4)
+        if mode == "xfile":
+            parts = [lines[i::4] for i in range(4)]
+            idx = [list(range(len(lines)))[i::4] for i in range(4)]
+            outs_c = [None] * len(lines)
+            inc_c = []
+            with ThreadPoolExecutor(max_workers=4) as ex:
+                res = list(ex.map(lambda k: run_batch([h, mode, os.path.join(ctx.scratch, "xfile%d.tmp" % k)], parts[k], ASAN_ENV), range(4)))
+            for k, (o, inc) in enumerate(res):
+                for j, v in enumerate(o):
+                    outs_c[idx[k][j]] = v
+                inc_c += [(idx[k][i], kind, e) for i, kind, e in inc]
+        else:
+            outs_c, inc_c = run_parallel([h, mode], lines, env=ASAN_ENV, chunks=4)
+
+        def replay_of(i, mode=mode, lines=lines):
+            return dict(part="text", mode=mode, case=lines[i])
+
+        def search(i, mode=mode, lines=lines):
+            raw = bytes.fromhex(lines[i].split(" ")[-1].replace("-", ""))
+            if mode == "sort":
+                return tools.gensquashfs(sort=raw + b"\n")
+            if mode == "xdec":
+                return tools.gensquashfs(xattr=b"# file: file\nuser.a=" + raw + b"\n")
+            if mode == "xfile":
+                return tools.gensquashfs(xattr=raw)
+            return tools.gensquashfs(pack=raw + b"\n")
+        agree = compare(ctx, "text-" + mode, lines, outs_c, outs_m, inc_c, replay_of, search)
+        total += len(lines)
+        nontriv += len({(l, o) for l, o in zip(lines, outs_c) if o and o.startswith("OK")})
+        stats["text-" + mode] = dict(cases=len(lines), agree=agree, ok=sum(1 for o in outs_c if o and o.startswith("OK")),
+                                     err=sum(1 for o in outs_c if o and o.startswith("ERR")))
+        k = len(lines) // 3
+        samples.append(dict(part="text", mode=mode, case=lines[k][:200], impl=(outs_c[k] or "")[:200], model=(outs_m[k] or "")[:200]))
+    return total, nontriv, samples[:2]
+
+
 def part_text_tools(ctx, tools, stats):
     rnd = random.Random(ctx.seed * 7919 + 5)
     q = ctx.tier == "quick"
@@ -579,6 +682,15 @@ def do_replay(ctx, info, drv, tools):
             report_incident(ctx, "dec-" + r["mode"], r["case"], kind, err, r)
         if not ic and oc != om:
             ctx.violation("tie:dec-" + r["mode"], "replay: impl=%r model=%r" % (oc[0], om[0]), r, no_input=True)
+    if part == "text":
+        h = B.compile_harness(info, [os.path.join(HERE, "h_text.c")], "c07_h_text",
+                              extra=["-I" + os.path.join(B.REPO, "bin", "gensquashfs", "src")])
+        oc, ic = run_batch([h, r["mode"], os.path.join(ctx.scratch, "xfile.tmp")], [r["case"]], env=ASAN_ENV, timeout=60)
+        om, _ = run_batch([drv, r["mode"]], [r["case"]])
+        for i, kind, err in ic:
+            report_incident(ctx, "text-" + r["mode"], r["case"], kind, err, r)
+        if not ic and oc != om:
+            ctx.violation("tie:text-" + r["mode"], "replay: impl=%r model=%r" % (oc[0], om[0]), r, no_input=True)
     if part == "text-tool" or "pack_b64" in r:
         kw = {k[:-4]: base64.b64decode(v) for k, v in r.items() if k.endswith("_b64") and k[:-4] in ("pack", "sort", "xattr")}
         res = tools.gensquashfs(**kw)
@@ -629,16 +741,11 @@ def run(ctx):
     nt += n
     samples += s
     ctx.log("decoders done")
-    text_mod = os.path.join(HERE, "text_part.py")
-    if os.path.exists(text_mod):
-        spec = importlib.util.spec_from_file_location("c07_text", text_mod)
-        tm = importlib.util.module_from_spec(spec)
-        spec.loader.exec_module(tm)
-        e, n, s = tm.part_text(ctx, info, drv, stats, sys.modules[__name__])
-        ev += e
-        nt += n
-        samples += s
-        ctx.log("text harness done")
+    e, n, s = part_text(ctx, info, drv, tools, stats)
+    ev += e
+    nt += n
+    samples += s
+    ctx.log("text harness done")
     tr = part_text_tools(ctx, tools, stats)
     ctx.log("text tools done; stalls (attempt, tool, stdin bytes):", tools.stalls[:10])
     stats["tool_timeouts_first_attempt"] = len([x for x in tools.stalls if x[0] == 0])
